@@ -62,8 +62,36 @@ func runC41(c *Ctx) {
 	}
 	storage := c.Iface("C41.O1", "remote.Storage")
 	if fn := c.Fn("C41.O1", "osp.(*provider).sharedUnref"); fn != nil && storage != nil {
-		delRef := And(ImplCall(storage, "remote.Storage", "Delete"), argFromCall(-1, "sharedObjectRefName"))
-		delObj := And(ImplCall(storage, "remote.Storage", "Delete"), argFromCall(-1, "remoteObjectName"))
+		// a deletion of the object named by <producer>(): Storage.Delete directly, or a helper of
+		// this module that passes one of its parameters to Storage.Delete as the name
+		rawDelete := ImplCall(storage, "remote.Storage", "Delete")
+		deleteOf := func(producer string) M {
+			return Pred("delete of "+producer+"()", func(in ssa.Instruction) bool {
+				call, ok := in.(*ssa.Call)
+				if !ok {
+					return false
+				}
+				args := call.Common().Args
+				var name ssa.Value
+				if rawDelete.F(call) {
+					name = args[len(args)-1]
+				} else if cal := call.Common().StaticCallee(); cal != nil && inModule(cal) && len(cal.Blocks) > 0 {
+					for _, inner := range instrs(cal, rawDelete) {
+						ia := inner.(*ssa.Call).Common().Args
+						if prm, ok := stripConv(ia[len(ia)-1]).(*ssa.Parameter); ok {
+							for i, fp := range cal.Params {
+								if fp == prm && i < len(args) {
+									name = args[i]
+								}
+							}
+						}
+					}
+				}
+				return name != nil && len(derivesFrom(name, CallPred(producer, ""), 4)) > 0
+			})
+		}
+		delRef := deleteOf("sharedObjectRefName")
+		delObj := deleteOf("remoteObjectName")
 		list := ImplCall(storage, "remote.Storage", "List")
 		isDelRefErr := func(v ssa.Value) bool {
 			call, ok := v.(*ssa.Call)
